@@ -247,8 +247,9 @@ def check_validate(ctx, F):
     oks = ok_assign_blocks(b, 'Ok')
     is_ops = lambda op_: any(o.kind == 'param' and o.key == 1 and tuple(o.path)[:1] == ('ops',) for o in fl.origins(op_))
     # form 1: an explicit loop over self.ops
-    iters = [(bb, t) for bb, t in fl.calls_to('std::iter::IntoIterator::into_iter') if is_ops(t['args'][0])]
-    nexts = fl.calls_to('std::iter::Iterator::next')
+    nexts = [(nb, nt) for nb, nt in fl.calls_to('std::iter::Iterator::next')
+             if any(o.kind == 'param' and o.key == 1 and tuple(o.path)[:1] == ('ops',) for o in iterated_collection(fl, nb))]
+    iters = nexts
     good, detail = _bounds_test(F, b, oks)
     exhausted = bool(iters) and bool(nexts) and all(any(fl.guarded_by(ob, nb, 'None') for nb, _ in nexts) for ob in oks) and bool(oks)
     if not (good and exhausted):
